@@ -4,7 +4,7 @@ import Driver.Util
 
 `upv<TAB>run<TAB>size<TAB>max<TAB>ops(;)`   the ADDRESSED machine `CA` from `size` slots, limit `max` slots
    ops: `p V` push, `o` pop, `gl I`, `sl I V`, `cap I`, `cl I`, `ug K`, `us K V`, `fg J`, `fs J V`,
-        `cc N K.K.K` call closure with handles, `cm N` call method, `ret`, `grow`
+        `cc N K.K.K` call closure with handles, `cm N` call method, `tc N` tail call, `ret`, `grow`
    answer: `ok | r1,r2,… | cap=… sp=… fp=… st=… fr=fp:id.id/… up=… uv=o3,c7,… ol=… hs=…`
         or `err <E>@<index of failing op> | r1,r2,…`
 `upv<TAB>ref<TAB>ops(;)`   index machine with the scope check + the cell machine `A`:
@@ -31,6 +31,7 @@ def parseOp (s : String) : Option Op :=
   | ["cc", n] => do pure (.callc (← parseNat? n) [])
   | ["cc", n, ks] => do pure (.callc (← parseNat? n) (← parseIds ks))
   | ["cm", n] => do pure (.callm (← parseNat? n))
+  | ["tc", n] => do pure (.tcall (← parseNat? n))
   | ["ret"] => some .ret
   | ["grow"] => some .grow
   | _ => none
